@@ -39,6 +39,31 @@ def judge_c07(case, log):
         if len({T for _, T in t["outs"]}) > 1:
             out.append(f"shared: one tick handed different timestamps {t['outs']}")
             break
+    # (3b) ... and "together" means every registered series whose source is alive is served at every tick, by the sink
+    #      of its current registration
+    reg = []
+    for it in trace:
+        if it[0] == "add":
+            if it[1] not in reg:
+                reg.append(it[1])
+        elif it[0] == "remove":
+            if it[1] in reg:
+                reg.remove(it[1])
+        else:
+            t = it[1]
+            served = [s for s, _ in t["outs"]]
+            want = [s for s in reg if s not in t["dead"]]
+            if sorted(served) != sorted(want):
+                T = t["outs"][0][1] if t["outs"] else "?"
+                stale = [-(s + 1) for s in served if s < 0]
+                out.append(f"shared: the tick that handed out {T} served series {served}, registered and alive are {want}"
+                           + (f" (the sink of a removed registration of series {stale} was driven)" if stale else ""))
+                break
+            for k, sid, _ in t["during"]:
+                if k == "add" and sid not in reg:
+                    reg.append(sid)
+                elif k == "remove" and sid in reg:
+                    reg.remove(sid)
     # (4) starts no earlier than creation, no later than two periods after it
     if allT and min(allT) < start:
         out.append(f"start: timestamp {min(allT)} precedes the creation instant {start}")
@@ -182,6 +207,9 @@ class C07Stream(R.ScenarioStream):
             out.append("sink_latency")
         if any(s["add_at"] > 0 for s in case["series"]):
             out.append("added_while_running")
+        adds = [e[1] for e in log if e[0] == "add"]
+        if len(adds) != len(set(adds)):
+            out.append("re-added_with_same_source_after_failure")
         trace = R.build_trace(case, log)
         for it in trace:
             if it[0] == "tick":
@@ -247,6 +275,18 @@ def judge_actor(case, log):
     out = []
     p, start, align = case["period"], case["start"], case["align"]
     hogs = R.hog_list(log)
+    # while the actor's _run is not running (stop()..start(), or between an unhandled exception and the re-entry by the
+    # Actor base) nothing can be published: like a blocked loop, the missed windows must come in a burst afterwards
+    down = None
+    for e in log:
+        if e[0] == "down":
+            down = e[1]
+        elif e[0] == "up" and down is not None:
+            hogs.append((down, e[1]))
+            down = None
+    if down is not None:
+        hogs.append((down, 1 << 62))
+    hogs.sort()
     per = {}
     for e in log:
         if e[0] == "out":
@@ -266,7 +306,7 @@ def judge_actor(case, log):
             exp = T - start
             skip = False
             for h0, h1 in hogs:
-                if abs(exp - h0) <= 2:
+                if abs(exp - h0) <= 2 or abs(exp - h1) <= 2:
                     skip = True
                 if h0 <= exp < h1:
                     exp = h1
@@ -286,7 +326,7 @@ def judge_actor(case, log):
         if (b - a) % p != 0:
             out.append(f"shared: timestamps {a} and {b} of different metrics are not on one grid")
             break
-    return [{"what": w, "finding": None} for w in out]
+    return [{"what": w, "finding": None} for w in out[:1]]     # one per case: the replays then show different cases
 
 
 class ActorStream(R.Stream):
@@ -322,6 +362,10 @@ class ActorStream(R.Stream):
                 out.append("run_crosses_DST_transition")
         if any(m.get("yields") is not None for m in case["metrics"]):
             out.append("request_at_tick_instant")
+        for r in case.get("restarts", []):
+            out.append("restart:stop/start" if r["how"] == "stop" else "restart:exception_in_run")
+        if any(e[0] == "stop_hung" for e in obs["log"]):
+            out.append("stop_hung(timer swallowed cancel)")
         if any(e[0] == "close" for e in obs["log"]):
             out.append("source_closed(remove-and-retry)")
         if any(e[0] == "hog" for e in obs["log"]):
@@ -329,6 +373,8 @@ class ActorStream(R.Stream):
         return out
 
     def shrink(self, case):
+        if case.get("restarts"):
+            yield {**case, "restarts": []}
         for i in range(len(case["hogs"])):
             yield {**case, "hogs": case["hogs"][:i] + case["hogs"][i + 1:]}
         for i in range(len(case["metrics"]) - 1, 0, -1):
